@@ -203,3 +203,18 @@ Definition root_span (is_file : bool) (store : list lexeme) (b : btree) : option
 (* store.iter(first, last) as a segment of the token list, and printer.print_model *)
 Definition seg {A} (l : list A) (a b : Z) : list A := py_slice l a (b + 1).
 Definition print_span (store : list lexeme) (a b : Z) : str := txt (seg store a b).
+
+(* all store indexes a built model refers to, in the order its parts were built *)
+Fixpoint bidx (b : btree) : list Z :=
+  match b with
+  | BTok i => [i]
+  | BNone => []
+  | BRep p items => p :: flat_map bidx items
+  | BModel cs => flat_map bidx cs
+  end.
+
+(* c is b or a model nested in b *)
+Inductive subnode (c : btree) : btree -> Prop :=
+| sub_refl : subnode c c
+| sub_rep p items x : In x items -> subnode c x -> subnode c (BRep p items)
+| sub_model cs x : In x cs -> subnode c x -> subnode c (BModel cs).
